@@ -228,6 +228,16 @@ Theorem c13_memo_eq_unmemoised : forall ctx_hash o oblig strict policy req resol
 Proof. exact memo_eq_unmemoised. Qed.
 Print Assumptions c13_memo_eq_unmemoised.
 
+(* the memo removes repeated lookups and nothing else: the call log of the memoised decision is the
+   call log of the evaluation that asks at every rel node, with only the first call of every key kept *)
+Theorem c13_memo_log_is_dedup : forall ctx_hash o oblig strict policy req resolved,
+  (forall q q', key_of ctx_hash q = key_of ctx_hash q' -> answer o q = answer o q') ->
+  let m := decide_rel ctx_hash (Some o) oblig strict policy req resolved in
+  let d := guard_eval (list rel_query) (relh_direct (Some o)) oblig strict policy req resolved [] in
+  fst m = fst d /\ f_log (snd m) = dedup_keys ctx_hash [] (snd d).
+Proof. exact memo_log_is_dedup. Qed.
+Print Assumptions c13_memo_log_is_dedup.
+
 (* the decision depends on the relationship oracle only through its values on the canonical queries *)
 Theorem c13_depends_on_canonical_queries : forall rel1 rel2 oblig strict policy req resolved,
   (forall env rule e q, build_env strict req resolved = Some env -> In rule (all_rules policy) ->
@@ -270,6 +280,24 @@ Theorem c13_fresh_per_decision : forall ctx_hash oblig strict policy resolved st
    nth_error (run_seq ctx_hash oblig strict policy resolved steps') k).
 Proof. exact fresh_per_decision_both. Qed.
 Print Assumptions c13_fresh_per_decision.
+
+(* two evaluations on two engines (own checker, policy, request), each working on its own frame of
+   a joint state — what contextvars give each task / worker thread — in either order: each gets
+   exactly the decision and the call log it gets alone (interleavings at the granularity of whole
+   handler calls commute for the same reason: lift_left and lift_right touch different components) *)
+Theorem c13_two_engines_isolated : forall ctx_hash chkA chkB obA obB strA strB polA polB reqA reqB resA resB,
+  let hA := relh_frame ctx_hash true chkA in
+  let hB := relh_frame ctx_hash true chkB in
+  let a := decide_rel ctx_hash chkA obA strA polA reqA resA in
+  let b := decide_rel ctx_hash chkB obB strB polB reqB resB in
+  (let '(ra, st) := guard_eval (frame * frame) (lift_left hA) obA strA polA reqA resA (frame0, frame0) in
+   let '(rb, st') := guard_eval (frame * frame) (lift_right hB) obB strB polB reqB resB st in
+   (ra, rb, st')) = (fst a, fst b, (snd a, snd b)) /\
+  (let '(rb, st) := guard_eval (frame * frame) (lift_right hB) obB strB polB reqB resB (frame0, frame0) in
+   let '(ra, st') := guard_eval (frame * frame) (lift_left hA) obA strA polA reqA resA st in
+   (ra, rb, st')) = (fst a, fst b, (snd a, snd b)).
+Proof. exact two_engines_isolated. Qed.
+Print Assumptions c13_two_engines_isolated.
 
 (* ===== non-vacuity ===== *)
 Definition ex_hash : value -> string := ctx_hash_model (Some (fun _ _ => "D")).
